@@ -187,7 +187,13 @@ def rand_op(u, rnd):
         return [u.u(c) for c in u.holder_list(h)]
 
     stale = 'stale' if rnd.random() < 0.3 else 'fresh'
-    k = rnd.randrange(25)
+    k = rnd.randrange(27)
+    if k >= 25:
+        # directed: put a detached, parentless task under a WBS root (the "can be attached to another WBS" clause)
+        free = [t for t in tasks if u.obj(t).wbs is None and u.obj(t).parent is None]
+        if free:
+            return ['chAppend', rnd.choice(roots), rnd.choice(free), 'fresh']
+        k = 18
     if k == 0:
         return ['setParent', rt(), rnd.choice([None] + tasks)]
     if k == 1:
@@ -320,11 +326,12 @@ def execute(prop, case):
 WF_CLAUSES = ['listed', 'once', 'forest', 'rootsTop', 'sym', 'dag', 'noAncDep']
 MON_OF = {
     'C01': WF_CLAUSES,
-    'C05': ['uniqueIds', 'tasksLookup', 'idClashIsRuntime'],
-    'C11': ['ownerOk'],
+    'C05': ['uniqueIds', 'tasksLookup', 'rejectIsRuntime'],
+    'C11': ['ownerOk', 'reattach'],
     'C15': ['unchangedOnRaise'],
     'C16': ['effect'],
 }
+ELEMENTWISE = ('listLshift', 'listRshift', 'listSetParent')
 
 
 def multiset_state(st):
@@ -347,8 +354,13 @@ def judge(prop, case, rec, out):
     eq = True
     info = {}
     mon = {c: True for c in MON_OF[prop]}
+    hyp = {}
+    sig = None
     accepted = rejected = 0
+    feats = set()
     for i, (st, o) in enumerate(zip(rec['steps'], out['steps'])):
+        if not all(mon.values()):
+            break          # the first failure is the one that counts; later steps start from a broken state
         if st['out'] == 'ok':
             accepted += 1
         else:
@@ -359,13 +371,21 @@ def judge(prop, case, rec, out):
             eq = False
             info['first_mismatch'] = {'step': i, 'op': st['full_op'], 'impl_out': st['out'], 'model_out': o['model']['out'],
                                       'pre': st['pre']['t'], 'impl_post': st['post']['t'], 'model_post': o['model']['post']['t']}
+        if o.get('mustAccept'):
+            feats.add('reattach')
         for c in MON_OF[prop]:
             if c in o['mon'] and not o['mon'][c] and mon[c]:
                 mon[c] = False
                 info.setdefault('monitor_failures', []).append({'clause': c, 'step': i, 'op': st['full_op'], 'impl_out': st['out']})
+                if prop == 'C15' and st['full_op'][0] in ELEMENTWISE:
+                    # outside the domain of C15_partial: element-by-element list-level operation (finding G12)
+                    hyp['notElementwise'] = False
+                    sig = 'elementwise:' + st['full_op'][0]
+                break
     key = common.digest([case['ids'], case['nw'], [model_op(o) for o in case['ops']]])
     nontrivial = accepted >= 1 and rejected >= 1 and len(case['ids']) >= 3
-    return Outcome(case, eq, mon, {}, nontrivial, key, info)
+    info['features'] = sorted(feats)
+    return Outcome(case, eq, mon, hyp, nontrivial, key, info, sig)
 
 
 def case_variants(case):
